@@ -109,6 +109,10 @@ class C10(E1Check):
         sig = f"C10|{op[0]}|name={'absent' if name == 'zz' else ('empty' if name == '' else 'present')}|{held}"
         exp, exp_out = T.ref()
         if T.outcome[:2] != exp_out or T.post != exp:
+            if name == "" and self._as_if_unfiltered(T):
+                sig = "C10|empty-measurement-name-treated-as-no-filter|writes"
+                out.append(viol("handle-equals-reference", sig, observed=(T.outcome, T.post), expected=(exp_out, exp), detail=f"pre={T.pre!r}"))
+                return out
             out.append(viol("handle-equals-reference", sig + "|differs-from-reference", observed=(T.outcome, T.post), expected=(exp_out, exp), detail=f"pre={T.pre!r}"))
         # replica B: the database form
         wb = W.World.build(T.cfg, T.alpha, T.history)
@@ -128,6 +132,25 @@ class C10(E1Check):
             if changed:
                 out.append(viol("other-measurements-untouched", sig + "|touches-other-measurement", observed=T.post, expected=exp))
         return out
+
+    def _as_if_unfiltered(self, T):
+        """Did a handle operation for the name '' behave exactly like the database operation without a filter?"""
+        op = T.op
+        k = op[0]
+        if k == "insert":
+            u = ("insert", op[1], None, False, "db")
+        elif k == "insert_multiple":
+            u = ("insert_multiple", op[1], None, False, "db")
+        elif k == "remove":
+            u = ("remove", op[1], None, "db")
+        elif k == "update":
+            u = ("update", op[1], op[2], None, "db")
+        elif k == "update_all":
+            u = ("update_all", op[1], "db")
+        else:
+            return False
+        exp_u, out_u = W.ref_apply(u, T.pre, T.alpha)
+        return T.outcome[:2] == out_u and T.post == exp_u
 
     def observe(self, w, stored, history, cfg, counters):
         db = w.db
